@@ -353,6 +353,8 @@ class Run:
         "C01": ["transfer", "filename"], "C02": ["transfer"], "C03": ["transfer"], "C11": ["transfer"], "C13": ["transfer"],
         "C05": ["transfer"], "C15": ["transfer"], "C06": ["transfer"], "C16": ["filename"], "C12": ["enum"],
     }
+    # stage 5 (analysis code of the generators), one line per area: area -> properties
+    for _p in ("C05", "C09", "C15"): TRANSLATION_TIES.setdefault(_p, []).append("mapmatch")
 
     def run_translation_ties(self, cov):
         areas = self.TRANSLATION_TIES.get(self.prop)
